@@ -101,7 +101,7 @@ class PropertyRun:
 
     # ---------------------------------------------------------------- traces
     def validate(self, module, events, name=None, cfg=None, chunks=1, env=None, timeout=900, heap="2g",
-                 groups=None, count_traces=None):
+                 groups=None, count_traces=None, silent_steps=False):
         """Validate events (list of dicts; key '_m' = python-side metadata, not sent to TLC)
         against trace spec `module`.  Returns list of (clause, event) failures not explained by a
         known finding."""
@@ -154,7 +154,7 @@ class PropertyRun:
             if not v:
                 raise tlc.MachineryError(f"{name}: TLC printed no verdict:\n" + r.out[-3000:])
             _, n, bad = v[-1]
-            if n != len(part) or r.distinct != len(part) + 1:
+            if n != len(part) or (not silent_steps and r.distinct != len(part) + 1):
                 raise tlc.MachineryError(f"{name}: trace not fully consumed ({r.distinct - 1}/{len(part)})\n" + r.out[-2000:])
             if (len(bad) == 0) != r.ok:
                 raise tlc.MachineryError(f"{name}: verdict/postcondition mismatch:\n" + r.out[-2000:])
